@@ -267,6 +267,22 @@ class G:
         self.kinds.append(kind)
         return out.name
 
+    def prelu(self, x, big=True):
+        """PRELU with a constant per-channel slope; big: slopes are not uniform and reach 1 or more (no table, no Mul+Max: the operator is decomposed into
+        Relu / Minimum / Mul / Add with internal intermediates)"""
+        r = self.rng
+        X = self.T(x)
+        c = X.shape[-1]
+        nm = self.name("prelu")
+        codes = r.integers(1, 128, (c,))
+        if big:
+            codes[int(r.integers(0, c))] = 127
+        a = self.const(nm + "_alpha", (1, 1, c), X.dtype.name if X.dtype.name != "int16" else "int8", codes, [float(np.float32((1.5 if big else 0.5) / 127.0))], [0])
+        out = self.act(nm + "_o", X.shape)
+        self.net.add_o(BO.PRELU, [x, a.name], [out.name], None, None, 1)
+        self.kinds.append("prelu")
+        return out.name
+
     def mul_max(self, x, style=None):
         """MAXIMUM(x, MUL(x, scalar constant)) with one quantisation throughout: the compiler's pattern for LeakyReLU (slope >= 0) / ABS (slope -1);
         the reference is the MUL and MAXIMUM kernels themselves"""
@@ -916,6 +932,14 @@ def fam_alias_stress(seed):
         vals.append(z)
         if r.integers(0, 4) == 0:
             vals.append(g.unary("relu", z))
+    if r.integers(0, 4) == 0:
+        # a decomposed PRELU in the middle of a residual block: its internal intermediates must not land on its input, which the skip connection still needs
+        base = g.conv(vals[-1], c, 1, 1, PAD_SAME, 0)
+        p_ = g.prelu(base, big=bool(r.integers(0, 4)))
+        q_ = g.conv(p_, c, int(r.choice([1, 3])), 1, PAD_SAME, 0)
+        B_ = g.T(base)
+        q2 = g.conv(p_, c, 1, 1, PAD_SAME, 0, oscale=B_.scale[0], ozp=B_.zp[0]) if r.integers(0, 2) else q_
+        vals.append(g.eltwise("add", q2, base))
     consumed = set(i for o in g.net.ops for i in o.inputs)
     outs = [v for v in vals if v not in consumed and v not in g.net.inputs][:3] or [vals[-1]]
     if r.integers(0, 3) == 0 and len(vals) > 4:
@@ -967,6 +991,15 @@ def fam_cpu_mix(seed):
         x = keep[0] if keep else y
         if r.integers(0, 2):
             x = g.eltwise("add", x, y) if g.T(x).shape == g.T(y).shape and g.T(x).dtype == g.T(y).dtype else x
+    if r.integers(0, 3) == 0 and len(g.T(x).shape) == 4:
+        # an accelerated tensor read by an accelerated RESHAPE (a copy, or an alias, inside the Ethos-U operator) whose result is updated in place, and also by a CPU
+        # operator afterwards: the copy must not be folded onto the tensor the CPU still needs
+        y = g.conv(x, int(r.choice([4, 8])), 1, 1, PAD_SAME, 0) if r.integers(0, 2) else g.unary("relu", x)
+        Y = g.T(y)
+        rs = g.reshape(y, [1, Y.shape[1] * Y.shape[2], 1, Y.shape[3]] if r.integers(0, 2) else [1, Y.shape[2], Y.shape[1], Y.shape[3]])
+        s_ = g.eltwise(str(r.choice(["add", "add", "sub"])), rs, g.const_act([1, 1, 1, Y.shape[3]]) if r.integers(0, 2) else g.input(g.T(rs).shape), oscale=Y.scale[0], ozp=Y.zp[0])
+        outs.append(s_)
+        x = g.cpu_op(y, str(r.choice(["neg", "custom", "reverse"])))
     if r.integers(0, 5) == 0 and len(g.T(x).shape) == 4:
         # a CPU-resident memory-only operator (RESHAPE whose shape is only known at run time) right next to accelerated operators
         if r.integers(0, 2):
